@@ -9,6 +9,7 @@ import (
 	"io"
 	"net/http"
 	"net/http/httptest"
+	"os"
 	"regexp"
 	"sort"
 	"strconv"
@@ -55,6 +56,8 @@ type Session struct {
 	// Chunked: low-latency session (ato = 3/4 segment, chunkdur = 1/4 segment): every segment is uploaded with chunked
 	// transfer encoding while it is produced in real time (so only short segments are drawn)
 	Chunked bool `json:"chunked,omitempty"`
+	// BigChunk: two chunks per 8 s segment
+	BigChunk bool `json:"big_chunk,omitempty"`
 }
 
 type Op struct {
@@ -70,6 +73,18 @@ type Case struct {
 
 func genCase(t *rapid.T) (Case, *env.Env) {
 	var tg env.Target
+	if os.Getenv("VERIF_TIER") == "thorough" && rapid.IntRange(0, 39).Draw(t, "big-chunk-case") == 0 {
+		// thorough tier only (each step takes up to 4 s of real time): chunks of ~150 KiB, larger than the sender's 64 KiB
+		// hand-over buffer, towards a receiver that is slow to read
+		tg = env.Target{Asset: "testpic_8s"}
+		e, err := env.Get(tg)
+		if err != nil {
+			t.Fatalf("HARNESS: %v", err)
+		}
+		s := Session{Type: rapid.SampledFrom([]string{"number", "time"}).Draw(t, "type"), MPD: "Manifest.mpd", Chunked: true, BigChunk: true, Slow: true,
+			TestNowMS: 1_000_000 + int64(rapid.IntRange(0, 16000).Draw(t, "off"))}
+		return Case{Target: tg, Sessions: []Session{s}, Ops: []Op{{Kind: "step", Session: 0}, {Kind: "step", Session: 0}}}, e
+	}
 	lowLatency := rapid.IntRange(0, 4).Draw(t, "low-latency-case") == 0
 	if lowLatency {
 		// short uniform segments: a chunked session is produced in real time
@@ -326,6 +341,9 @@ func checkCase(c Case, e *env.Env) (*hx.Violation, info) {
 		}
 		if s.Chunked {
 			ll := []string{"ato_" + refmodel.FormatMS(segMS*3/4), "chunkdur_" + refmodel.FormatMS(segMS/4)}
+			if s.BigChunk {
+				ll = []string{"ato_" + refmodel.FormatMS(segMS/2), "chunkdur_" + refmodel.FormatMS(segMS/2)}
+			}
 			x.parts = append(x.parts, ll...)
 			x.refParts = append(append([]string{}, x.refParts...), ll...)
 		}
@@ -612,7 +630,7 @@ func checkCase(c Case, e *env.Env) (*hx.Violation, info) {
 		}
 		if x.s.Fault == "statuscode" {
 			time.Sleep(40 * time.Millisecond)
-		} else if !x.early && !x.rc.waitFor(x.expected, 3*time.Second) {
+		} else if bound := map[bool]time.Duration{false: 3 * time.Second, true: 15 * time.Second}[x.s.BigChunk]; !x.early && !x.rc.waitFor(x.expected, bound) {
 			return hx.V("segment-missing", "op %d (%s): session %s delivered %d of %d uploads", i, op.Kind, x.id, x.rc.count(), x.expected), inf
 		}
 		time.Sleep(2 * time.Millisecond) // let a surplus upload show up
